@@ -507,6 +507,17 @@ pub fn exercise_dwarf<Rd: Reader<Offset = usize>>(dwarf: &gimli::Dwarf<Rd>, b: &
             let _ = dwarf.debug_str_offsets.get_str_offset(f, gimli::DebugStrOffsetsBase(usize::MAX - 1), gimli::DebugStrOffsetsIndex(i));
         }
     }
+    // the offset tables of the list sections: the section under test, and a table of boundary entries behind a header
+    // of each format (an entry is relative to the base, so base + entry is computed from untrusted data)
+    for f in [gimli::Format::Dwarf32, gimli::Format::Dwarf64] {
+        let enc = gimli::Encoding { format: f, version: 5, address_size: 8 };
+        for base in [0usize, 12, 20, 1, usize::MAX - 1] {
+            for i in [0usize, 1, 5, usize::MAX / 8, usize::MAX] {
+                let _ = dwarf.ranges.get_offset(enc, gimli::DebugRngListsBase(base), gimli::DebugRngListsIndex(i));
+                let _ = dwarf.locations.get_offset(enc, gimli::DebugLocListsBase(base), gimli::DebugLocListsIndex(i));
+            }
+        }
+    }
     Ok(())
 }
 
